@@ -6,6 +6,7 @@ A scratch worktree /tmp/verif-seed-wt is (re)used, the patch applied, the proper
 and the verdict recorded in seeded/<id>/result.json (caught = a VIOLATION line was printed)."""
 import json
 import os
+import shutil
 import subprocess
 import sys
 import time
@@ -37,6 +38,25 @@ def run_one(sid, tier):
         print(sid, "patch does not apply:", r.stdout)
         return None
     results = {}
+    # does the change still break its own demonstration on the current /repo HEAD?  (a later fix: commit can neutralise a seed)
+    demo = meta.get("demo") or {}
+    demo_state = None
+    if demo.get("cmd") and "--no-demo" not in sys.argv:
+        placed = []
+        for pl in demo.get("place", []):
+            src, dst = pl.split(":")
+            dd = os.path.join(WT, dst)
+            os.makedirs(os.path.dirname(dd), exist_ok=True)
+            shutil.copy(os.path.join(d, src), dd)
+            placed.append(dd)
+        try:
+            r = sh("timeout 900 " + demo["cmd"], cwd=WT, env=dict(os.environ, GOFLAGS="-mod=mod", GOPROXY="off"))
+            demo_state = "fails" if r.returncode else "passes"
+        except Exception as ex:  # noqa
+            demo_state = "error"
+        for dd in placed:
+            os.remove(dd)
+        print(sid, "demo on current HEAD + change:", demo_state, flush=True)
     for pid in ([meta["property"]] + meta.get("also_check", [])):
         t = time.time()
         env = dict(os.environ, VERIF_REPO=WT)
@@ -55,7 +75,8 @@ def run_one(sid, tier):
         results[pid] = {"rc": r.returncode, "caught": caught, "no_failing_input_found": nfi, "lines": lines, "wall_s": round(time.time() - t, 1),
                         "what": (replay or {}).get("what") or (replay or {}).get("obligation"), "tail": r.stdout[-600:] if not caught else ""}
         print(sid, pid, "CAUGHT" if caught else "MISSED", "(no-failing-input-found)" if nfi else "", results[pid]["what"] or "", flush=True)
-    json.dump({"seeded": sid, "tier": tier, "results": results}, open(os.path.join(d, "result.json"), "w"), indent=1)
+    head = sh("git -C /repo rev-parse --short HEAD").stdout.strip().split("\n")[-1]
+    json.dump({"seeded": sid, "tier": tier, "repo_head": head, "demo_with_change_on_head": demo_state, "results": results}, open(os.path.join(d, "result.json"), "w"), indent=1)
     sh("git -C %s checkout -- . && git -C %s clean -fdq" % (WT, WT))
     return results
 
